@@ -314,7 +314,9 @@ Definition ring_poll (s : sys) : sys * list obs :=
     | _ => (s, [])
     end in
   let '(s2, o2) := process (length (cq s1)) s1 in
-  (s2, o1 ++ o2).
+  (* futures waiting for a submission slot are woken at the end of every poll (repair of H15) *)
+  let '(s3, o3) := wake_blocked s2 in
+  (s3, o1 ++ o2 ++ o3).
 
 (** The kernel posts a completion for in-flight operation [i] (K2): ignored unless [i] is in flight. *)
 Definition kpost (s : sys) (i : nat) (c : cqe) : sys :=
